@@ -13,6 +13,7 @@ From Coq Require Import ZArith List Bool Arith NArith Sorting.Sorted.
 From PV Require Import Generated.C03_ErrorClasses Directors.Model Directors.Spec Directors.Proofs.
 From Coq Require Import Sorting.Permutation Lia.
 From PV Require Import Directors.Parser Directors.ParserSpec Directors.ParserProofs Directors.ParserOrder Directors.ParserNest Directors.ParserIns Directors.ParserE2E.
+From PV Require Import Directors.ErrorLog Directors.ErrorLogProofs Directors.ErrorLogE2E.
 Import ListNotations.
 Open Scope Z_scope.
 
@@ -507,4 +508,103 @@ Example source_example :
 Proof.
   split; [simpl; repeat split; try constructor; auto; reflexivity|].
   split; [vm_compute; repeat constructor | vm_compute; reflexivity].
+Qed.
+
+(* ==== the error log (pytype/errors/errors.py ErrorLog + the wiring in vm.run_program) ==================
+   Model: Directors/ErrorLog.v.  A history is any list of log operations: _add (every logging method),
+   error(line=...), checkpoint / revert (nested), copy_from (of the latest record or of any list),
+   set_error_filter.  [accepted f e]: e was let through by f and carries the line f gave it. *)
+
+(* Invariant over every history: once a filter is installed (and not replaced), every error in the log was
+   either there before or was accepted by the filter — whatever checkpoints, reverts and copies happen. *)
+Theorem log_filter_invariant : forall f errs cps rec ops st,
+  no_setfilter ops -> run (mkL errs (Some f) cps rec) ops = Ok st ->
+  Forall (fun e => In e errs \/ accepted f e) (l_errors st).
+Proof. exact log_invariant_lemma. Qed.
+Print Assumptions log_filter_invariant.
+
+(* vm.run_program: Director.__init__ logs [pre] (no filter yet), set_error_filter(director.filter_error),
+   then the analysis [post].  Every error of the final report that the Director did not log itself satisfies
+   the Director's filter for (its final line, its class): other file / no line / in none of the line sets. *)
+Theorem final_report_satisfies_filter : forall st rl pre post lst,
+  no_setfilter post -> run l_empty (program_history pre (filter_error st rl) post) = Ok lst ->
+  Forall (fun e => In e pre \/ clear_of st e) (l_errors lst).
+Proof. exact final_report_clear_lemma. Qed.
+Print Assumptions final_report_satisfies_filter.
+
+(* REFUTED without the "In e pre" escape: an error logged while the Director is constructed (invalid-directive,
+   late-directive, ignored-type-comment of _process_type) stays in the report although the filter rejects it. *)
+Theorem final_report_satisfies_filter_refuted :
+  exists D st e lst,
+    build_events [] [] D = Ok st /\
+    run l_empty (program_history [e] (filter_error st []) []) = Ok lst /\
+    In e (l_errors lst) /\ e_same_file e = true /\
+    filter_error st [] e = Ok (false, e_line e).
+Proof. exact prefilter_escape_lemma. Qed.
+Print Assumptions final_report_satisfies_filter_refuted.
+
+(* [source_trailing_disable_silences] lifted from "the Director says filtered" to "absent from the final
+   report": for any tree, comment map and analysis history, no error of class E on line L that the analysis
+   logs reaches the report when the file has a trailing disable=E on L (and no trailing enable=E). *)
+Theorem source_trailing_disable_absent_from_report : forall g raw body c L E st rl pre post lst,
+  raw_ok raw -> In c (all_comments raw) -> pc_c c = trailing_disable L E ->
+  accepted_name E = true ->
+  Forall (fun ev => trailing_enable_of E (ev_comment ev) = false)
+         (events_of (director_groups (parse raw body))) ->
+  build g (v_fr (parse raw body)) (director_groups (parse raw body)) = Ok st ->
+  no_setfilter post ->
+  run l_empty (program_history pre (filter_error st rl) post) = Ok lst ->
+  Forall (fun e => In e pre \/ ~ is_target L E e) (l_errors lst).
+Proof. exact source_report_silenced_lemma. Qed.
+Print Assumptions source_trailing_disable_absent_from_report.
+
+(* "... and every other reported error unchanged": the same history under a filter f' that only additionally
+   rejects errors in tgt gives the same log minus tgt elements — positions of checkpoints shift, records
+   shrink, copies are re-filtered — PROVIDED every record that is copied holds only errors of other files
+   (eval_expr compiles the annotation without a filename; monitored on every real run). *)
+Theorem report_frame_partial : forall tgt f f' a a' rec ops st st',
+  (forall e, tgt e = true -> e_same_file e = true) -> narrows tgt f f' ->
+  dropped tgt a' a -> no_setfilter ops -> copies_foreign (mkS a [] (Some f) rec) ops ->
+  run (mkL a (Some f) [] rec) ops = Ok st -> run (mkL a' (Some f') [] rec) ops = Ok st' ->
+  dropped tgt (l_errors st') (l_errors st) /\
+  filter (fun e => negb (tgt e)) (l_errors st') = filter (fun e => negb (tgt e)) (l_errors st).
+Proof.
+  intros. assert (dropped tgt (l_errors st') (l_errors st)) by (eapply report_frame_lemma; eauto).
+  split; [assumption|apply dropped_filter; assumption].
+Qed.
+Print Assumptions report_frame_partial.
+
+(* the hypothesis is necessary: an error of this file recorded under a checkpoint and copied elsewhere
+   disappears together with its original although the copy is not in tgt *)
+Theorem report_frame_refuted :
+  (forall e, wt e = true -> e_same_file e = true) /\ narrows wt wf wf' /\ no_setfilter wops /\
+  exists st st', run (mkL [] (Some wf) [] []) wops = Ok st /\ run (mkL [] (Some wf') [] []) wops = Ok st' /\
+    l_errors st = [mkErr true (Some 9) 1%N false] /\ l_errors st' = [] /\
+    wt (mkErr true (Some 9) 1%N false) = false /\ ~ dropped wt (l_errors st') (l_errors st).
+Proof. exact frame_copy_refuted_lemma. Qed.
+Print Assumptions report_frame_refuted.
+
+(* one list + remembered positions (what errors.py does) = a stack of segments, on every history *)
+Theorem errorlog_positions_are_segments : forall ops st ss st1, repr st ss -> run st ops = Ok st1 ->
+  exists ss1, srun ss ops = Ok ss1 /\ repr st1 ss1.
+Proof. exact run_srun. Qed.
+Print Assumptions errorlog_positions_are_segments.
+
+(* non-vacuity: a history with everything in it, under the Director of [D_after] (lines 3-5 silenced for E0):
+   a pre-filter error on a silenced line stays; an error on line 6 is kept, one on line 4 is not; a checkpoint
+   records a foreign error and a same-file one on line 4 (filtered on entry), revert, copy to line 6 and 5 *)
+Example log_history_example :
+  exists st, build_events [other] [(1, 1)] D_after = Ok st /\
+  let f := filter_error st [] in
+  let e l := same_file_err l E0 false in
+  let foreign := mkErr false (Some 1) E0 false in
+  let post := [LAdd (e 6); LAdd (e 4); LCheckpoint; LAdd foreign; LAdd (e 4); LCheckpoint; LAdd (e 6); LRevert;
+               LRevert; LCopyRec (mkP true 6 false); LCopyRec (mkP true 5 false); LAddAt (e 6) 3; LAddAt (e 3) 0;
+               LAddAt (e 3) 6] in
+  balanced 0 post = true /\ no_setfilter post /\ copies_foreignb (mkS [e 4] [] (Some f) []) post = true /\
+  exists lst, run l_empty (program_history [e 4] f post) = Ok lst /\
+              l_errors lst = [e 4; e 6; e 6; e 6] /\ l_rec lst = [foreign].
+Proof.
+  eexists. split; [vm_compute; reflexivity|]. split; [reflexivity|]. split; [repeat constructor|].
+  split; [vm_compute; reflexivity|]. eexists. split; [vm_compute; reflexivity|]. split; reflexivity.
 Qed.
